@@ -432,7 +432,7 @@ pub fn run(ctx: &Ctx) -> Outcome {
          (sections in any order, odd table rows, 0-3 dividers, bad escapes, wrong line numbers), byte/line mutations of valid serializations of generated object files, and raw random bytes/texts; \
          inside catch_unwind: deserialize; if Some: both serializers, re-deserialization, link with 6 pool files in both orders, load into a fresh simulator; non-trivial = input was accepted by deserialize; distinct by input",
     );
-    let cfg = TapeCfg::new(ctx, 20_000, 1_500_000, 1500);
+    let cfg = TapeCfg::new(ctx, 20_000, 400_000, 1500);
     out.shards = cfg.shards;
     out.absorb(tape_search(ctx, "main", &cfg, check, describe));
     if !out.failed() && ctx.tier == Tier::Thorough {
